@@ -286,7 +286,7 @@ func (c *e2eCluster) wait() time.Duration {
 	if c.stalled {
 		return 150 * time.Millisecond
 	}
-	return 4 * time.Second
+	return 12 * time.Second
 }
 
 func (c *e2eCluster) sync(faultHit bool) string {
